@@ -63,7 +63,12 @@ func isDivName(n string) bool { return strings.Contains(strings.ToLower(n), "div
 // makePlan draws the receiver and operands of one invocation of p.  d >= 0
 // selects the d-th directed combination (signs for scalars, zero-pattern
 // triples for containers); d < 0 is fully random.
-func makePlan(p *Pair, r *prng.Rand, d int) Plan {
+func makePlan(p *Pair, r *prng.Rand, d int) Plan { return makePlanOpt(p, r, d, false) }
+
+// makePlanOpt: with square set, all dimensions are chosen so that any operand
+// may be replaced by (a view of) the receiver: square matrices, inner
+// dimensions equal to the receiver's, no deliberate mismatches.
+func makePlanOpt(p *Pair, r *prng.Rand, d int, square bool) Plan {
 	e := p.E
 	T := e.Elem
 	g := &genCtx{r: r}
@@ -91,7 +96,7 @@ func makePlan(p *Pair, r *prng.Rand, d int) Plan {
 		pats = patternTriples[d%len(patternTriples)]
 	}
 	div := isDivName(p.Generic)
-	mismatch := d < 0 && r.Chance(0.03)
+	mismatch := d < 0 && r.Chance(0.03) && !square
 
 	var n, R, C int
 	switch e.Kind {
@@ -108,7 +113,7 @@ func makePlan(p *Pair, r *prng.Rand, d int) Plan {
 		}
 	case KVector:
 		n = r.Range(1, 5)
-		if d < 0 && r.Chance(0.04) {
+		if d < 0 && r.Chance(0.04) && !square {
 			n = 0
 		}
 		pl.Recv = g.vector(T, e.Storage, pats[0], n, false)
@@ -117,7 +122,7 @@ func makePlan(p *Pair, r *prng.Rand, d int) Plan {
 		}
 	case KMatrix:
 		R, C = r.Range(1, 4), r.Range(1, 4)
-		if r.Chance(0.5) || p.Generic == "Diag" {
+		if r.Chance(0.5) || p.Generic == "Diag" || square {
 			C = R
 		}
 		pl.Recv = g.matrix(T, e.Storage, pats[0], R, C, false)
@@ -135,6 +140,9 @@ func makePlan(p *Pair, r *prng.Rand, d int) Plan {
 
 	// operands
 	k := r.Range(1, 4) // inner dimension of products
+	if square {
+		k = n + R // one of them is zero
+	}
 	nCont := 0
 	var ints []int
 	for i := 1; i < nIn; i++ {
@@ -254,7 +262,7 @@ func makePlan(p *Pair, r *prng.Rand, d int) Plan {
 			}
 			return r.Intn(hi)
 		}
-		oob := d < 0 && r.Chance(0.03)
+		oob := d < 0 && r.Chance(0.03) && !square
 		switch {
 		case e.Kind == KVector && p.Generic == "Slice" && len(ints) == 2:
 			a, b := r.Range(0, n), r.Range(0, n)
@@ -377,6 +385,14 @@ func run(pl Plan, concrete bool) (res result) {
 	res.recv = pl.Recv.Build()
 	args := make([]reflect.Value, len(pl.Args))
 	for i, a := range pl.Args {
+		if a.Alias != "" {
+			if p := fw.Call(func() { args[i] = a.Derive(res.recv.V) }); p != nil {
+				p.Msg = "building the aliased operand: " + p.Msg
+				res.panic = p
+				return
+			}
+			continue
+		}
 		args[i] = a.Build().V
 	}
 	m := res.recv.V.MethodByName(name)
@@ -665,6 +681,9 @@ func kindOf(pl Plan, f *Finding) string {
 // part of the class only if the divergence disappears with a zero receiver.
 func signature(pl Plan, f *Finding) string {
 	class := classOf(pl, f)
+	if al := pl.aliasLabel(); al != "" {
+		return fmt.Sprintf("C09|pair|%s.%s/%s|alias:%s,%s|%s", pl.P.E.Name, pl.P.Generic, pl.P.Concrete, al, class, kindOf(pl, f))
+	}
 	if pl.P.E.Kind == KScalar {
 		q := pl
 		q.Recv = Arg{Kind: "scalar", T: pl.Recv.T, J: gen.Jet{}}
@@ -673,6 +692,121 @@ func signature(pl Plan, f *Finding) string {
 		}
 	}
 	return fmt.Sprintf("C09|pair|%s.%s/%s|%s|%s", pl.P.E.Name, pl.P.Generic, pl.P.Concrete, class, kindOf(pl, f))
+}
+
+/* aliased invocations
+ * -------------------------------------------------------------------------- */
+
+// aliasLabel: "a=recv+b=T" for the aliased operands of a plan ("" if none).
+func (pl Plan) aliasLabel() string {
+	var parts []string
+	letter := 'a'
+	for _, a := range pl.Args {
+		if a.Kind == "int" || a.Kind == "float" {
+			continue
+		}
+		if a.Alias != "" {
+			parts = append(parts, string(letter)+"="+a.Alias)
+		}
+		letter++
+	}
+	return strings.Join(parts, "+")
+}
+
+// aliasOptions: the ways parameter i (1-based) of the pair can alias the
+// receiver: a container parameter of the receiver's own type (or an
+// interface-typed container parameter of the receiver's kind) can be the
+// receiver, a full-range Slice of it or (matrices) its transpose; a scalar
+// parameter of the element type of a container receiver can be one of its
+// elements; a scalar parameter of a scalar receiver's type can be the receiver.
+func aliasOptions(p *Pair, i int) []string {
+	ct := p.C.Type.In(i)
+	kind, _ := paramKind(ct)
+	e := p.E
+	switch {
+	case e.Kind == KScalar && ct == e.Type:
+		return []string{"recv"}
+	case e.Kind == KVector && kind == "vector" && (ct == e.Type || ct.Kind() == reflect.Interface):
+		return []string{"recv", "view"}
+	case e.Kind == KMatrix && kind == "matrix" && (ct == e.Type || ct.Kind() == reflect.Interface):
+		return []string{"recv", "view", "T"}
+	case (e.Kind == KVector || e.Kind == KMatrix) && kind == "scalar":
+		if re := byType[ct]; re != nil && re.Kind == KScalar && re.Elem.Name == e.Elem.Name {
+			return []string{"elem"}
+		}
+	}
+	return nil
+}
+
+// aliasCombos enumerates the assignments of alias options (or "" =
+// independent operand) to the parameters, at least one of them aliased.
+func aliasCombos(p *Pair) [][]string {
+	n := p.C.Type.NumIn() - 1
+	res := [][]string{{}}
+	for i := 1; i <= n; i++ {
+		opts := append([]string{""}, aliasOptions(p, i)...)
+		var next [][]string
+		for _, c := range res {
+			for _, o := range opts {
+				next = append(next, append(append([]string(nil), c...), o))
+			}
+		}
+		res = next
+	}
+	var out [][]string
+	for _, c := range res {
+		for _, o := range c {
+			if o != "" {
+				out = append(out, c)
+				break
+			}
+		}
+	}
+	return out
+}
+
+// makeAliasPlan: a random plan whose operands alias the receiver as given.
+func makeAliasPlan(p *Pair, r *prng.Rand, combo []string) Plan {
+	pl := makePlanOpt(p, r, -1, true)
+	for i, al := range combo {
+		if al == "" {
+			continue
+		}
+		a := pl.Recv
+		a.View = "plain"
+		a.Alias = al
+		switch al {
+		case "T":
+			a.M.Vals, a.M.Stored = transposeSpec(pl.Recv.M)
+		case "elem":
+			n := len(pl.Recv.V.Vals) + len(pl.Recv.M.Vals)
+			idx := 0
+			if n > 0 {
+				idx = r.Intn(n)
+			}
+			j := gen.Jet{}
+			if pl.Recv.Kind == "vector" && n > 0 {
+				j = pl.Recv.V.Vals[idx]
+			} else if n > 0 {
+				j = pl.Recv.M.Vals[idx]
+			}
+			a = Arg{Kind: "scalar", T: pl.Recv.T, J: j, I: idx, Alias: "elem"}
+		}
+		pl.Args[i] = a
+	}
+	return pl
+}
+
+func transposeSpec(m gen.MatrixSpec) ([]gen.Jet, []bool) {
+	v := make([]gen.Jet, len(m.Vals))
+	s := make([]bool, len(m.Vals))
+	for i := 0; i < m.R; i++ {
+		for j := 0; j < m.C; j++ {
+			v[j*m.R+i] = m.Vals[i*m.C+j]
+			s[j*m.R+i] = m.Stored[i*m.C+j]
+		}
+	}
+	return v, s
 }
 
 /* monitors
@@ -748,8 +882,20 @@ func exercise(cs *fw.Case, pl Plan, seen map[string]int) bool {
 	p := pl.P
 	f, judged, ulpUsed, bothPanic := compare(pl)
 	if bothPanic {
+		if pl.aliasLabel() != "" {
+			cs.Cover("alias-both-rejected:" + p.Generic)
+			return false
+		}
 		cs.Cover("both-panic:" + p.E.Kind)
 		return false
+	}
+	if al := pl.aliasLabel(); al != "" {
+		cs.Cover("alias-judged:" + p.E.Kind + "/" + p.E.Storage)
+		for _, a := range pl.Args {
+			if a.Alias != "" {
+				cs.Cover("alias-operand:" + a.Alias)
+			}
+		}
 	}
 	cs.Cover("judged:" + p.E.Name)
 	cs.Cover("op:" + p.Generic)
@@ -874,6 +1020,51 @@ func Run(c *fw.Ctx) {
 		if first != nil {
 			cs.Nontrivial(p.Key(), first.Recv.String(), fmt.Sprint(first.Args))
 			cs.Sample(first.witness())
+		}
+	})
+
+	// the pairs whose operands can alias the receiver, invoked under identical
+	// alias patterns (operand = the receiver, a full-range Slice of it, its
+	// transpose, one of its elements): equal operands must give equal results
+	// whatever the aliasing, and an alias that one variant rejects must be
+	// rejected by the other.  One case per pair x alias combination.
+	type aliasCase struct {
+		p     *Pair
+		combo []string
+	}
+	var acs []aliasCase
+	for _, p := range exec {
+		for _, cb := range aliasCombos(p) {
+			acs = append(acs, aliasCase{p, cb})
+		}
+	}
+	c.CoverMax("max:alias-combinations", int64(len(acs)))
+	reps := c.N(12, 150)
+	c.Cases("alias", len(acs), func(cs *fw.Case) {
+		ac := acs[cs.Index]
+		cs.C.Cover("set:alias-pair:"+ac.p.Key(), 1)
+		seen := map[string]int{}
+		var first *Plan
+		for s := 0; s < reps; s++ {
+			pl := makeAliasPlan(ac.p, cs.R, ac.combo)
+			if exercise(cs, pl, seen) && first == nil && !allZeroInputs(pl) {
+				q := pl
+				first = &q
+			}
+		}
+		if first != nil {
+			cs.Nontrivial(ac.p.Key(), first.aliasLabel(), first.Recv.String(), fmt.Sprint(first.Args))
+			cs.Sample(first.witness())
+		}
+	})
+	c.Cases("alias.random", c.N(60000, 1500000), func(cs *fw.Case) {
+		if len(acs) == 0 {
+			return
+		}
+		ac := acs[cs.R.Intn(len(acs))]
+		pl := makeAliasPlan(ac.p, cs.R, ac.combo)
+		if exercise(cs, pl, map[string]int{}) && !allZeroInputs(pl) {
+			cs.Nontrivial(ac.p.Key(), pl.aliasLabel(), pl.Recv.String(), fmt.Sprint(pl.Args))
 		}
 	})
 
